@@ -218,11 +218,20 @@ func sanitize(s string) string {
 // Violations returns the number of new violations so far.
 func (r *Run) Violations() int { r.mu.Lock(); defer r.mu.Unlock(); return len(r.viol) }
 
+// AtFinish functions run at the end of Finish (the harness binaries leave through
+// os.Exit(run.Finish()), which skips deferred calls).
+var AtFinish []func()
+
 // Finish writes evidence/<ID>.json and returns the process exit code:
 // 0 held, 1 violation, 2 the run observed too little (broken check).
 func (r *Run) Finish() int {
 	r.mu.Lock()
 	defer r.mu.Unlock()
+	defer func() {
+		for _, f := range AtFinish {
+			f()
+		}
+	}()
 	cov := map[string]any{}
 	for k, v := range r.Extra {
 		cov[k] = v
